@@ -1,6 +1,6 @@
 (* Model/CSema.v — hand model (tie H) of the expression typing of ppci/lang/c/semantics.py
    (CSemantics.on_number/on_cast/on_unop/on_binop/on_ternop, coerce, promote, get_common_type) with
-   fixes/C27-sema-promotions.diff applied: from a source expression to the typed AST. NO proofs. *)
+   fixes/C27-sema-promotions.diff and c83990b (C11 promote / get_common_type, fixes/C01-common-type.diff) applied: from a source expression to the typed AST. NO proofs. *)
 From PV Require Import Lib.Py Spec.CIntSpec Gen.ceval Model.CEval.
 From Coq Require Import String.
 Open Scope Z_scope.
@@ -9,11 +9,9 @@ Open Scope Z_scope.
 Definition coerce (e : cexpr) (t : ity) : cexpr :=
   if ity_eqb (typ_of e) t then e else CastE e t.
 
-(* promote: small integer types go to int *)
-Definition promote_m (e : cexpr) : cexpr :=
-  if mem_ty (typ_of e) promotable_types then coerce e TInt else e.
-
-(* get_common_type: max([t1, t2], key=rank) — the first maximal element *)
+(* get_common_type BEFORE c83990b (and still the rule for non-integer operands):
+   max([t1, t2], key=rank) — the first maximal element. Kept under this name: Model/CGenExpr.v
+   (C01, sem_orig) and the historical c27_fragment theorems refer to it. *)
 Definition common_type (a b : ity) : ity := if basic_rank a <? basic_rank b then b else a.
 
 Definition unop_str (op : unop) : string :=
@@ -25,64 +23,111 @@ Definition binop_str (op : binop) : string :=
   | BEq => "==" | BNe => "!=" | BLAnd => "&&" | BLOr => "||"
   end.
 
-Fixpoint elab (e : expr) : cexpr :=
-  match e with
-  | ELit t v => NumLit v t                                   (* on_number: type from the suffix *)
-  | ECast t a => CastE (elab a) t                            (* on_cast *)
-  | EUn ULNot a => UnOp "!" (elab a) TInt                    (* check_condition keeps integer types *)
-  | EUn UPlus a => promote_m (elab a)
-  | EUn op a => let a' := promote_m (elab a) in UnOp (unop_str op) a' (typ_of a')
-  | EBin op a b =>
-      let a' := elab a in
-      let b' := elab b in
-      match op with
-      | BLAnd | BLOr => BinOp a' (binop_str op) b' TInt
-      | BShl | BShr =>
-          let a2 := promote_m a' in
-          let b2 := promote_m b' in
-          BinOp a2 (binop_str op) (coerce b2 (typ_of a2)) (typ_of a2)
-      | _ =>
-          let a2 := promote_m a' in
-          let b2 := promote_m b' in
-          let t := common_type (typ_of a2) (typ_of b2) in
-          BinOp (coerce a2 t) (binop_str op) (coerce b2 t) (if is_int_result op then TInt else t)
-      end
-  | ECond c a b =>
-      let a2 := promote_m (elab a) in
-      let b2 := promote_m (elab b) in
-      let t := common_type (typ_of a2) (typ_of b2) in
-      TernOp (elab c) (coerce a2 t) (coerce b2 t) t
+(* The elaboration is written once over the two typing helpers:
+     pr t     — the type CSemantics.promote coerces a promotable type t to
+     cm a b   — CSemantics.get_common_type on integer types *)
+Section Typing.
+  Variable pr : ity -> ity.
+  Variable cm : ity -> ity -> ity.
+
+  (* promote: `if expr.typ.is_promotable: expr = self.coerce(expr, <int or unsigned int>)` *)
+  Definition promote_g (e : cexpr) : cexpr :=
+    if mem_ty (typ_of e) promotable_types then coerce e (pr (typ_of e)) else e.
+  Definition pp_g (t : ity) : ity := if mem_ty t promotable_types then pr t else t.
+
+  Fixpoint elab_g (e : expr) : cexpr :=
+    match e with
+    | ELit t v => NumLit v t                                   (* on_number: type from the suffix *)
+    | ECast t a => CastE (elab_g a) t                          (* on_cast *)
+    | EUn ULNot a => UnOp "!" (elab_g a) TInt                  (* check_condition keeps integer types *)
+    | EUn UPlus a => promote_g (elab_g a)
+    | EUn op a => let a' := promote_g (elab_g a) in UnOp (unop_str op) a' (typ_of a')
+    | EBin op a b =>
+        let a' := elab_g a in
+        let b' := elab_g b in
+        match op with
+        | BLAnd | BLOr => BinOp a' (binop_str op) b' TInt
+        | BShl | BShr =>
+            let a2 := promote_g a' in
+            let b2 := promote_g b' in
+            BinOp a2 (binop_str op) (coerce b2 (typ_of a2)) (typ_of a2)
+        | _ =>
+            let a2 := promote_g a' in
+            let b2 := promote_g b' in
+            let t := cm (typ_of a2) (typ_of b2) in
+            BinOp (coerce a2 t) (binop_str op) (coerce b2 t) (if is_int_result op then TInt else t)
+        end
+    | ECond c a b =>
+        let a2 := promote_g (elab_g a) in
+        let b2 := promote_g (elab_g b) in
+        let t := cm (typ_of a2) (typ_of b2) in
+        TernOp (elab_g c) (coerce a2 t) (coerce b2 t) t
+    end.
+
+  (* initializer of `T g = e;` : on_variable_initialization coerces to the declared type *)
+  Definition elab_init_g (t : ity) (e : expr) : cexpr := coerce (elab_g e) t.
+
+  (* where the helpers coincide with C's integer promotions / usual arithmetic conversions *)
+  Fixpoint sema_agrees_g (dm : datamodel) (e : expr) : bool :=
+    match e with
+    | ELit _ _ => true
+    | ECast _ a => sema_agrees_g dm a
+    | EUn ULNot a => sema_agrees_g dm a
+    | EUn _ a => sema_agrees_g dm a && ity_eqb (pp_g (type_of dm a)) (promote dm (type_of dm a))
+    | EBin op a b =>
+        sema_agrees_g dm a && sema_agrees_g dm b &&
+        match op with
+        | BLAnd | BLOr => true
+        | BShl | BShr =>
+            ity_eqb (pp_g (type_of dm a)) (promote dm (type_of dm a)) &&
+            ity_eqb (pp_g (type_of dm b)) (promote dm (type_of dm b))
+        | _ =>
+            ity_eqb (pp_g (type_of dm a)) (promote dm (type_of dm a)) &&
+            ity_eqb (pp_g (type_of dm b)) (promote dm (type_of dm b)) &&
+            ity_eqb (cm (pp_g (type_of dm a)) (pp_g (type_of dm b)))
+                    (uac dm (promote dm (type_of dm a)) (promote dm (type_of dm b)))
+        end
+    | ECond c a b =>
+        sema_agrees_g dm c && sema_agrees_g dm a && sema_agrees_g dm b &&
+        ity_eqb (pp_g (type_of dm a)) (promote dm (type_of dm a)) &&
+        ity_eqb (pp_g (type_of dm b)) (promote dm (type_of dm b)) &&
+        ity_eqb (cm (pp_g (type_of dm a)) (pp_g (type_of dm b)))
+                (uac dm (promote dm (type_of dm a)) (promote dm (type_of dm b)))
+    end.
+End Typing.
+
+(* ---- the current code (c83990b) ---- *)
+(* promote: unsigned int when the unsigned source type is as wide as int, else int *)
+Definition promote_t (c : cctx) (t : ity) : ity :=
+  if negb (is_signed_m t) && (sizeof c t >=? sizeof c TInt) then TUInt else TInt.
+
+(* get_type(["unsigned"] + signed_typ.type_id.split()) *)
+Definition unsigned_of_m (t : ity) : ity :=
+  match t with
+  | TChar => TUChar | TShort => TUShort | TInt => TUInt | TLong => TULong | TLLong => TULLong
+  | u => u
   end.
 
-(* initializer of `T g = e;` : on_variable_initialization coerces to the declared type *)
-Definition elab_init (t : ity) (e : expr) : cexpr := coerce (elab e) t.
+(* _get_common_integer_type *)
+Definition common_type_c (c : cctx) (t1 t2 : ity) : ity :=
+  let rank1 := basic_rank t1 / 10 in
+  let rank2 := basic_rank t2 / 10 in
+  if Bool.eqb (is_signed_m t1) (is_signed_m t2) then (if rank2 >? rank1 then t2 else t1)
+  else
+    let s := if is_signed_m t1 then t1 else t2 in
+    let srank := if is_signed_m t1 then rank1 else rank2 in
+    let u := if is_signed_m t1 then t2 else t1 in
+    let urank := if is_signed_m t1 then rank2 else rank1 in
+    if urank >=? srank then u
+    else if sizeof c s >? sizeof c u then s
+    else unsigned_of_m s.
 
-(* where ppci's typing coincides with C's: get_common_type (max rank) and promote (always int)
-   against the usual arithmetic conversions / integer promotions of the data model *)
-Definition pp_t (t : ity) : ity := if mem_ty t promotable_types then TInt else t.
-Fixpoint sema_agrees (dm : datamodel) (e : expr) : bool :=
-  match e with
-  | ELit _ _ => true
-  | ECast _ a => sema_agrees dm a
-  | EUn ULNot a => sema_agrees dm a
-  | EUn _ a => sema_agrees dm a && ity_eqb (pp_t (type_of dm a)) (promote dm (type_of dm a))
-  | EBin op a b =>
-      sema_agrees dm a && sema_agrees dm b &&
-      match op with
-      | BLAnd | BLOr => true
-      | BShl | BShr =>
-          ity_eqb (pp_t (type_of dm a)) (promote dm (type_of dm a)) &&
-          ity_eqb (pp_t (type_of dm b)) (promote dm (type_of dm b))
-      | _ =>
-          ity_eqb (pp_t (type_of dm a)) (promote dm (type_of dm a)) &&
-          ity_eqb (pp_t (type_of dm b)) (promote dm (type_of dm b)) &&
-          ity_eqb (common_type (pp_t (type_of dm a)) (pp_t (type_of dm b)))
-                  (uac dm (promote dm (type_of dm a)) (promote dm (type_of dm b)))
-      end
-  | ECond c a b =>
-      sema_agrees dm c && sema_agrees dm a && sema_agrees dm b &&
-      ity_eqb (pp_t (type_of dm a)) (promote dm (type_of dm a)) &&
-      ity_eqb (pp_t (type_of dm b)) (promote dm (type_of dm b)) &&
-      ity_eqb (common_type (pp_t (type_of dm a)) (pp_t (type_of dm b)))
-              (uac dm (promote dm (type_of dm a)) (promote dm (type_of dm b)))
-  end.
+Definition promote_m (c : cctx) := promote_g (promote_t c).
+Definition elab (c : cctx) := elab_g (promote_t c) (common_type_c c).
+Definition elab_init (c : cctx) := elab_init_g (promote_t c) (common_type_c c).
+Definition sema_agrees (c : cctx) := sema_agrees_g (promote_t c) (common_type_c c).
+
+(* ---- the helpers before c83990b: promote = always int, get_common_type = max rank ---- *)
+Definition elab_old := elab_g (fun _ => TInt) common_type.
+Definition sema_agrees_old := sema_agrees_g (fun _ => TInt) common_type.
+Definition pp_t (t : ity) : ity := pp_g (fun _ => TInt) t.
